@@ -962,6 +962,74 @@ def wt1(ctx, R):
             "metadata does not iterate over all objects")
 
 
+@rule("MS1", "objects handed to the writer do not memoise what they derive from attributes the caller may reassign", floor=0)
+def ms1(ctx, R):
+    """RootObject / GroupObject / ChannelObject are plain value objects: `data` and `properties` are ordinary attributes, and reusing one
+    object for several write_segment calls with new data is the documented way to append.  A method of such a class that stores in a
+    private field, under `if self._m is None`, a value derived from one of those public attributes - and that nothing ever resets -
+    keeps describing the first data: the declared type / size and the bytes written then disagree."""
+    prog = ctx.prog
+    wmod = prog.module("writer")
+    try:
+        classes = [prog.cls("writer.%s" % n_) for n_ in ("RootObject", "GroupObject", "ChannelObject")]
+    except AnchorMissing:
+        R.unrecognised("writer::object classes", wmod.relpath, "RootObject / GroupObject / ChannelObject not found")
+        return
+    n_inst = 0
+    for ci in classes:
+        init = None
+        for k in prog.mro(ci):
+            if "__init__" in k.methods:
+                init = k.methods["__init__"]
+                break
+        if init is None:
+            continue
+        # public attributes stored straight from constructor parameters, not shadowed by a property
+        public = set()
+        for n_ in walk_body(init.node):
+            if isinstance(n_, ast.Assign):
+                for t_ in n_.targets:
+                    if isinstance(t_, ast.Attribute) and dotted(t_.value) == "self" and not t_.attr.startswith("_") and any(
+                            isinstance(x_, ast.Name) and x_.id in init.params for x_ in ast.walk(n_.value)):
+                        found = prog.lookup(ci, t_.attr)
+                        if not (found and found[0] == "method"):
+                            public.add(t_.attr)
+        methods = [m_ for k in prog.mro(ci) for m_ in k.methods.values() if m_.name != "__init__"]
+        for m_ in methods:
+            for st in walk_body(m_.node):
+                if not (isinstance(st, ast.If) and isinstance(st.test, ast.Compare) and len(st.test.ops) == 1 and isinstance(st.test.ops[0], ast.Is)
+                        and isinstance(st.test.comparators[0], ast.Constant) and st.test.comparators[0].value is None
+                        and isinstance(st.test.left, ast.Attribute) and dotted(st.test.left.value) == "self" and st.test.left.attr.startswith("_")):
+                    continue
+                memo = st.test.left.attr
+                stores = [a_ for a_ in st.body if isinstance(a_, ast.Assign) and any(isinstance(t_, ast.Attribute) and dotted(t_.value) == "self" and t_.attr == memo for t_ in a_.targets)]
+                if not stores:
+                    continue
+                # what the stored value is derived from: attributes of self read in the value, or in the own helper method it calls
+                reads = set()
+                def reads_of(node, depth=0):
+                    for x_ in ast.walk(node):
+                        if isinstance(x_, ast.Attribute) and dotted(x_.value) == "self" and isinstance(x_.ctx, ast.Load):
+                            reads.add(x_.attr)
+                            h = prog.lookup(ci, x_.attr)
+                            if h and h[0] == "method" and depth < 2 and h[2] is not m_:
+                                reads_of(h[2].node, depth + 1)
+                reads_of(stores[0].value)
+                derived = sorted(reads & public)
+                if not derived:
+                    continue
+                resets = [g for g in methods if g is not m_ for a_ in walk_body(g.node) if isinstance(a_, ast.Assign) and any(
+                    isinstance(t_, ast.Attribute) and dotted(t_.value) == "self" and t_.attr == memo for t_ in a_.targets)]
+                n_inst += 1
+                key = "%s.%s::memo of %s" % (ci.qual, m_.name, ", ".join(derived))
+                R.check(bool(resets), key, m_.where(st), "the memo is reset elsewhere",
+                        "`self.%s` keeps the value computed from `self.%s` the first time; `%s` is an ordinary attribute the caller may assign again (the same object written "
+                        "in several segments with new data), and nothing resets the memo: the declared type / size of later segments describes the first data" % (
+                            memo, derived[0], derived[0]))
+    if n_inst == 0:
+        R.ok("writer::no memo derived from a reassignable attribute", wmod.relpath, "no method of the writable object classes memoises a value derived from `data` / `properties`")
+
+
 @rule("UC1", "names, property strings and string data use one codec in writer and reader", floor=4)
 def uc1(ctx, R):
     prog = ctx.prog
